@@ -195,6 +195,8 @@ class SeqLayer(core.Layer):
                 check_case(pre + list(tail), ms, bs, acc)
 
     def replay(self, case):
+        if case.get('kind') == 'wiring':
+            return Wiring(1).replay(case)
         return check_case([tuple(x) for x in case['symbols']], case['minScore'], case['breakSegmentThreshold'], None, None,
                           [tuple(x) for x in case['before']] if case.get('before') is not None else None)
 
@@ -251,7 +253,79 @@ class TwoCalls(SeqLayer):
                 check_case(list(seq), ms, bs, acc, None, before)
 
 
+WIRING = [(700, 300, 900), (3000, 500, 1000), (1000, 1200, 500), (20000, 1200, 1000), (1, 0, 1000), (2, 2500, 3)]      # (-ms, -bs, -sp)
+
+
+@core.guarded(lambda ms, bs, sp, syms, *a: dict(kind='wiring', minScore=ms, breakSegmentThreshold=bs, perfectMatchScore=sp, symbols=[list(x) for x in syms]))
+def check_wiring(ms, bs, sp, syms, acc):
+    """the factory the PROGRAM builds from `-ms X -bs Y` (with a different -sp) is driven with a score sequence scaled to X / Y: the
+    thresholds that reach it are the ones given on the command line"""
+    import os
+    from mc import driver
+    from src.args import Args
+    from src.program import Program
+    d = core.scratch_dir()
+    w = dict(refs=[(1, 50000.0, [1000.0, 9000.0, 20000.0])], queries=[(2, 20000.0, [0.0, 8000.0, 19000.0])])
+    rp, qp = driver.write_world(d, w)
+    a = Args.parse(driver.cli_args(rp, qp, os.path.join(d, 'o13.xmap'), 'best', ['-ms', str(ms), '-bs', str(bs), '-sp', str(sp)]))
+    try:
+        prog = Program(a)
+    finally:
+        for fo in (a.referenceFile, a.queryFile, a.outputFile):
+            fo.close()
+    factory = prog.workflowCoordinator.aligner.segmentsFactory
+    # symbols are (kind, multiple of the unit); unit = ms / 2, so that values 1..3 straddle minScore
+    unit = ms / 2.0
+    scaled = [(k, v * unit) for k, v in syms]
+    positions = [make_position(k, sym) for k, sym in enumerate(scaled)]
+    segs = factory.getSegments(list(positions), PEAK)
+    spans = observe(positions, segs)
+    s_ = [v for _, v in scaled]
+    exp, eq, rejected = reference(s_, ms, bs)
+    got = [x for x in spans if x is not None]
+    found = []
+    case = dict(kind='wiring', minScore=ms, breakSegmentThreshold=bs, perfectMatchScore=sp, symbols=[list(x) for x in syms])
+    if got != exp:
+        found.append(('program-built-factory-differs-from-reference', '-ms %s -bs %s -sp %s: scores %s got %s expected %s (factory holds minScore=%s, '
+                      'breakSegmentThreshold=%s)' % (ms, bs, sp, s_, got, exp, getattr(factory, 'minScore', '?'), getattr(factory, 'breakSegmentThreshold', '?')),
+                      'wiring', {}))
+    if acc is not None:
+        acc.evals += 1
+        acc.transitions += len(syms) + 2
+        acc.state(('w', ms, bs, tuple(got)))
+        if rejected or eq:
+            acc.nontriv(('w', ms, bs, sp, tuple(syms)))
+        for f in found:
+            acc.viol(f[0], case, f[1], f[2], f[3])
+        acc.sample(case)
+    return found
+
+
+class Wiring(core.Layer):
+    name = 'wiring:-ms,-bs'
+    optional = False
+
+    def __init__(self, maxlen):
+        self.maxlen = maxlen
+        self.alpha = [('P', 3), ('P', 2), ('P', 1), ('P', -1), ('U', -1)]
+        self.bounds = dict(option_triples=[list(x) for x in WIRING], max_length=maxlen, alphabet=[list(a) for a in self.alpha])
+        self.rule = '%d (-ms, -bs, -sp) triples x all sequences of length 1..%d over 5 symbols scaled to minScore/2, through the factory built by Program' % (len(WIRING), maxlen)
+
+    def nblocks(self):
+        return len(WIRING)
+
+    def run_block(self, b, acc):
+        ms, bs, sp = WIRING[b]
+        for L in range(1, self.maxlen + 1):
+            for seq in itertools.product(self.alpha, repeat=L):
+                acc.seq += 1
+                check_wiring(ms, bs, sp, list(seq), acc)
+
+    def replay(self, case):
+        return check_wiring(case['minScore'], case['breakSegmentThreshold'], case['perfectMatchScore'], [tuple(x) for x in case['symbols']], None)
+
+
 def layers(tier, seed):
     if tier == 'quick':
-        return [SeqLayer('L<=6', 6), Dyadic('dyadic,L<=6', 6), TwoCalls('seq2:L<=3', 3)]
-    return [SeqLayer('L<=6', 6), Dyadic('dyadic,L<=7', 7), TwoCalls('seq2:L<=4', 4), SeqLayer('L=7', 7, minlen=7), SeqLayer('L=8', 8, minlen=8, optional=True)]
+        return [SeqLayer('L<=6', 6), Dyadic('dyadic,L<=6', 6), TwoCalls('seq2:L<=3', 3), Wiring(3)]
+    return [SeqLayer('L<=6', 6), Dyadic('dyadic,L<=7', 7), TwoCalls('seq2:L<=4', 4), Wiring(4), SeqLayer('L=7', 7, minlen=7), SeqLayer('L=8', 8, minlen=8, optional=True)]
